@@ -29,8 +29,8 @@ CONSTANTS
   Dev_S6_DtcDictCollapse,
   Dev_S7_ClearDddiLen3
 
-VARIABLES c, pc, pdu, dk, out
-vars == <<c, pc, pdu, dk, out>>
+VARIABLES c, pc, pdu, dk, out, rng
+vars == <<c, pc, pdu, dk, out, rng>>
 
 -----------------------------------------------------------------------------
 (* boundary classes -> values *)
@@ -230,13 +230,14 @@ Init ==
   /\ c \in (IF Side = "req" THEN ReqCases ELSE RespCases)
   /\ pc = IF Side = "req" THEN "New" ELSE "Recv"
   /\ pdu = <<>> /\ dk = "none" /\ out = NoOut
+  /\ rng = "?"            \* range class of the parameters, determined by the range checks of Construct
 
 \* -- request side
-RRange == ReqRange(c.kind, c.f)
 Construct ==
   /\ pc = "New"
-  /\ \/ RRange # "out" /\ pc' = "Built"
-     \/ RRange # "in" /\ pc' = "Refused"         \* unspec: either
+  /\ rng' = ReqRange(c.kind, c.f)
+  /\ \/ rng' # "out" /\ pc' = "Built"
+     \/ rng' # "in" /\ pc' = "Refused"           \* unspec: either
   /\ UNCHANGED <<c, pdu, dk, out>>
 
 \* what .pdu produces: the ISO layout, unless a deviation reproduces a defect
@@ -253,13 +254,13 @@ Serialise ==
   /\ pc = "Built"
   /\ IF SerialiseRaises THEN pc' = "Refused" /\ pdu' = pdu
      ELSE pc' = "Encoded" /\ pdu' = DesignEnc
-  /\ UNCHANGED <<c, dk, out>>
+  /\ UNCHANGED <<c, dk, out, rng>>
 
 Dispatch ==
   /\ pc = "Encoded"
   /\ dk' = ReqKindOf(pdu)
   /\ pc' = IF dk' = "none" THEN "Raw" ELSE "Dispatched"
-  /\ UNCHANGED <<c, pdu, out>>
+  /\ UNCHANGED <<c, pdu, out, rng>>
 
 \* length gate + _from_pdu + `assert result.pdu == pdu`; any failure => raw
 DesignReEncReq(k, f) ==
@@ -274,14 +275,14 @@ Decode ==
      IF d.ok /\ DesignReEncReq(dk, d.f) = pdu
      THEN pc' = "Typed" /\ out' = [typed |-> TRUE, kind |-> dk, f |-> d.f, re |-> [ok |-> TRUE, b |-> pdu]]
      ELSE pc' = "Raw" /\ out' = out
-  /\ UNCHANGED <<c, pdu, dk>>
+  /\ UNCHANGED <<c, pdu, dk, rng>>
 
 \* -- response side
 DispatchResp ==
   /\ pc = "Recv"
   /\ dk' = RespKindOf(c.b)
   /\ pc' = IF dk' = "none" THEN "RawResp" ELSE "Gate"
-  /\ UNCHANGED <<c, pdu, out>>
+  /\ UNCHANGED <<c, pdu, out, rng>>
 
 RECURSIVE Dedup(_, _, _)
 \* dict keyed by DTC: first position wins, last status wins
@@ -320,7 +321,7 @@ GateDecode ==
                      re |-> IF d.f.dtc > 255 THEN [ok |-> FALSE, b |-> <<>>]
                             ELSE [ok |-> TRUE, b |-> <<b[1], b[2], d.f.dtc, 0, 0, d.f.status>> \o SubSeq(b, 7, Len(b))]]
      ELSE pc' = "TypedResp" /\ out' = [typed |-> TRUE, kind |-> dk, f |-> d.f, re |-> [ok |-> TRUE, b |-> ReEnc(L, d.f)]]
-  /\ UNCHANGED <<c, pdu, dk>>
+  /\ UNCHANGED <<c, pdu, dk, rng>>
 
 Next == Construct \/ Serialise \/ Dispatch \/ Decode \/ DispatchResp \/ GateDecode
 Spec == Init /\ [][Next]_vars
@@ -328,10 +329,10 @@ Spec == Init /\ [][Next]_vars
 -----------------------------------------------------------------------------
 (* the contract, as invariants over terminal states (one per clause) *)
 ReqTerminal == pc \in {"Refused", "Typed", "Raw"}
-InR == Side = "req" /\ RRange = "in"
+InR == Side = "req" /\ rng = "in"
 E == Enc(ReqLayout[c.kind], c.f)
 
-TypeOK == pc \in {"New", "Built", "Refused", "Encoded", "Dispatched", "Typed", "Raw",
+TypeOK == rng \in {"?", "in", "out", "unspec"} /\ pc \in {"New", "Built", "Refused", "Encoded", "Dispatched", "Typed", "Raw",
                   "Recv", "Gate", "TypedResp", "RawResp", "Rejected"}
 \* the tables themselves: decoding an encoded in-range request gives the kind back
 L0_TablesRoundTrip ==
@@ -345,7 +346,7 @@ Q3_SameFields == (InR /\ pc = "Typed") =>
                    /\ out.kind = ReqKindOf(E)
                    /\ Agree(ReqLayout[out.kind], out.f, Dec(ReqLayout[out.kind], E).f)
                    /\ out.re.b = E
-Q4_Refused == (Side = "req" /\ RRange = "out") => pc \in {"New", "Refused"}
+Q4_Refused == (Side = "req" /\ rng = "out") => pc = "Refused"
 
 RespDecoded == Dec(RespLayout[out.kind], c.b)
 R1_Fields == (pc = "TypedResp" /\ RespDecoded.ok) => Agree(RespLayout[out.kind], out.f, RespDecoded.f)
